@@ -778,6 +778,11 @@ def run(ctx):
         gq = gen_case(rng, dict(nr=4, nt=12, nz=nz))
         gq.update(nu=0.0, p=0.0, dT=0.0, Tbase=[0.0, 300.0][c], direct=(c == 0))
         jobs.append(("cross-nu0-extension", 0, 100 + c, gq, CrossJob, (gq, None, batch)))
+    # cooling to a temperature field that is exactly zero everywhere (temperatures measured from a zero reference):
+    # the thermal-strain increment of that step is -alpha*T_n and must not be lost because "there is no temperature"
+    gz = gen_case(rng, dict(nr=4, nt=12, nz=3))
+    gz.update(Tbase=250.0, dT=-250.0, al=1e-5, direct=False)
+    jobs.append(("cross-cool-to-zero", 0, 200, gz, CrossJob, (gz, None, batch)))
     built = []
     for kind, ndim, c, g, cls, args in jobs:
         try:
